@@ -40,21 +40,15 @@ uint32_t g_r[4], g_X[16], g_in[4];
 
 /* ---------------- FIPS 180-4 SHA-1 ghost (section 6.1.2) */
 struct sha1 { unsigned int h_[5]; unsigned char block_[64]; size_t block_byte_index_; size_t byte_count_; };
-uint32_t g_W[80], g_s[5], g_h0[5];
+uint32_t g_s[5];
 #define SHA1_F(t,x,y,z) ((t) < 20 ? (((x) & (y)) ^ (~(x) & (z))) : (t) < 40 ? ((x) ^ (y) ^ (z)) : (t) < 60 ? (((x) & (y)) ^ ((x) & (z)) ^ ((y) & (z))) : ((x) ^ (y) ^ (z)))
 #define SHA1_K(t) ((t) < 20 ? 0x5a827999u : (t) < 40 ? 0x6ed9eba1u : (t) < 60 ? 0x8f1bbcdcu : 0xca62c1d6u)
-#define SHA1_EQ (a == g_s[0] && b == g_s[1] && c == g_s[2] && d == g_s[3] && e == g_s[4])
-/* message schedule: W_t = M_t (big endian) for t<16, ROTL1(W_{t-3}^W_{t-8}^W_{t-14}^W_{t-16}) after; checked word by word */
-#define SHA1_SCHED() do { for(int t_ = 0; t_ < 80; t_++) { \
-      g_W[t_] = t_ < 16 ? (((uint32_t)self->block_[4 * t_] << 24) | ((uint32_t)self->block_[4 * t_ + 1] << 16) | ((uint32_t)self->block_[4 * t_ + 2] << 8) | (uint32_t)self->block_[4 * t_ + 3]) \
-                        : ROTL32(g_W[t_ - 3] ^ g_W[t_ - 8] ^ g_W[t_ - 14] ^ g_W[t_ - 16], 1); \
-      __CPROVER_assert(w[t_] == g_W[t_], "sha1: message schedule word equals FIPS 180-4 W_t"); __CPROVER_assume(w[t_] == g_W[t_]); } \
-      for(int j_ = 0; j_ < 5; j_++) { g_s[j_] = self->h_[j_]; g_h0[j_] = self->h_[j_]; } } while(0)
-/* at the start of round t: state equals the ghost (assert, then assume), then the ghost performs FIPS round t */
-#define SHA1_ROUND(t) do { __CPROVER_assert(SHA1_EQ, "sha1: working variables before this round equal FIPS 180-4"); __CPROVER_assume(SHA1_EQ); \
-      uint32_t T_ = ROTL32(g_s[0], 5) + SHA1_F(t, g_s[1], g_s[2], g_s[3]) + g_s[4] + SHA1_K(t) + g_W[t]; \
+#define BE32(p) (((uint32_t)(p)[0] << 24) | ((uint32_t)(p)[1] << 16) | ((uint32_t)(p)[2] << 8) | (uint32_t)(p)[3])
+size_t g_t;   /* arbitrary schedule index chosen by the harness */
+/* ghost round: FIPS 180-4 6.1.2 step 3 for round t over the schedule word W_t */
+#define SHA1_ROUND_G(t) do { uint32_t T_ = ROTL32(g_s[0], 5) + SHA1_F(t, g_s[1], g_s[2], g_s[3]) + g_s[4] + SHA1_K(t) + w[t]; \
       g_s[4] = g_s[3]; g_s[3] = g_s[2]; g_s[2] = ROTL32(g_s[1], 30); g_s[1] = g_s[0]; g_s[0] = T_; } while(0)
-#define SHA1_FINAL() do { __CPROVER_assert(SHA1_EQ, "sha1: working variables after round 79 equal FIPS 180-4"); __CPROVER_assume(SHA1_EQ); } while(0)
+#define SHA1_INIT_G() do { g_s[0] = a; g_s[1] = b; g_s[2] = c; g_s[3] = d; g_s[4] = e; } while(0)
 ''' % (','.join(map(str, K)), ','.join(map(str, SH)), ','.join('0x%08xu' % t for t in T))
 
 md5_inserts = [(r'#define ROTATE_LEFT[^\n]*\n', 0, 'MD5_LOAD();')]
@@ -75,19 +69,36 @@ functions = [
          contract='__CPROVER_requires(n >= 1 && n <= 31)\n__CPROVER_assigns()\n__CPROVER_ensures(__CPROVER_return_value == ROTL32(x, n))'),
     dict(cname='sha1_process_block0', file=S, locate=r'inline void sha1::process_block\(\)', sig='void sha1_process_block0(struct sha1 *self)',
          members=['h_', 'block_'],
-         inserts=[(r'unsigned int a = ', 0, ''), ],
-         loop_ghost={2: 'SHA1_ROUND(i);'},),
+         post_rewrites=[(r'(for \(size_t i=\w+; i<\w+; \+\+i\) \{\s*unsigned int f;)', r'SHA1_INIT_G(); \1', 1)],
+         loop_ghost={2: 'SHA1_ROUND_G(i);'},
+         loops={0: """
+__CPROVER_assigns(i, __CPROVER_object_whole(w))
+__CPROVER_loop_invariant(i <= 16 && (g_t < i ==> w[g_t] == BE32(self->block_ + 4 * g_t)))
+__CPROVER_decreases(16 - i)
+""", 1: """
+__CPROVER_assigns(i, __CPROVER_object_whole(w))
+/* FIPS 180-4 6.1.2 step 1, at an arbitrary index g_t: W_t = M_t (big endian) for t < 16, ROTL1(W_{t-3} ^ W_{t-8} ^ W_{t-14} ^ W_{t-16}) after */
+__CPROVER_loop_invariant(16 <= i && i <= 80 && (g_t < 16 ==> w[g_t] == BE32(self->block_ + 4 * g_t)) &&
+      ((g_t >= 16 && g_t < i) ==> w[g_t] == ROTL32(w[g_t - 3] ^ w[g_t - 8] ^ w[g_t - 14] ^ w[g_t - 16], 1)))
+__CPROVER_decreases(80 - i)
+""", 2: """
+__CPROVER_assigns(i, a, b, c, d, e, __CPROVER_object_whole(g_s))
+/* lock step with the FIPS round function (ghost g_s advanced by SHA1_ROUND_G at the start of every iteration) */
+__CPROVER_loop_invariant(i <= 80 && a == g_s[0] && b == g_s[1] && c == g_s[2] && d == g_s[3] && e == g_s[4])
+__CPROVER_decreases(80 - i)
+"""},
+         contract=r"""
+__CPROVER_requires(__CPROVER_rw_ok(self, sizeof(*self)) && g_t < 80)
+__CPROVER_assigns(self->h_[0], self->h_[1], self->h_[2], self->h_[3], self->h_[4], __CPROVER_object_whole(g_s))
+/* FIPS 180-4 6.1.2 step 4: H_j += working variable j (which, by the round-loop invariant, went through the 80 FIPS rounds in lock step) */
+__CPROVER_ensures(self->h_[0] == __CPROVER_old(self->h_[0]) + g_s[0] && self->h_[1] == __CPROVER_old(self->h_[1]) + g_s[1] && self->h_[2] == __CPROVER_old(self->h_[2]) + g_s[2] &&
+                  self->h_[3] == __CPROVER_old(self->h_[3]) + g_s[3] && self->h_[4] == __CPROVER_old(self->h_[4]) + g_s[4])
+"""),
     dict(cname='sha1_reset', file=S, locate=lit('inline void sha1::reset()'), sig='void sha1_reset(struct sha1 *self)', members=['h_', 'block_byte_index_', 'byte_count_'],
          contract='__CPROVER_requires(__CPROVER_rw_ok(self, sizeof(*self)))\n__CPROVER_assigns(self->h_[0], self->h_[1], self->h_[2], self->h_[3], self->h_[4], self->block_byte_index_, self->byte_count_)\n'
                   '/* FIPS 180-4 5.3.1 initial hash value */\n'
                   '__CPROVER_ensures(self->h_[0] == 0x67452301u && self->h_[1] == 0xefcdab89u && self->h_[2] == 0x98badcfeu && self->h_[3] == 0x10325476u && self->h_[4] == 0xc3d2e1f0u && self->block_byte_index_ == 0 && self->byte_count_ == 0)'),
 ]
-# SHA1 ghost placement: schedule check before `unsigned int a = h_[0];`, final check before `h_[0] += a;`
-for f in functions:
-    if f['cname'] == 'sha1_process_block0':
-        f['inserts'] = []
-        f['post_rewrites'] = [(r'(unsigned int a = self->h_)', r'SHA1_SCHED(); \1', 1), (r'(self->h_\[0\] \+= a;)', r'SHA1_FINAL(); \1', 1)]
-
 jobs = [
     dict(name='md5_process', props=P, kind='plain', unwind=17, per_property=r'^md5_process\.assertion|^h_md5_process\.assertion', checks=HASH_CHECKS, timeout=300, cost=20, pp_workers=14,
          complete_note='straight-line code; 64 assert-then-assume cut points, one cbmc process per obligation; the only loops (ghost word copy, big-endian path) have constant bound 16',
@@ -95,25 +106,19 @@ jobs = [
     md5_state_t st, st0; unsigned char *blk = malloc(64 + 3); __CPROVER_assume(blk != NULL);
     size_t mis; __CPROVER_assume(mis <= 3);          /* aligned and unaligned data */
     st0 = st;
+    WIT_BUF(0, blk + mis, 24);
     md5_process(&st, blk + mis);
     /* RFC 1321 step 4: registers incremented by the result of the 64 RFC steps (ghost g_r) from their old values over the block words */
     __CPROVER_assert(g_in[0] == st0.abcd[0] && g_in[1] == st0.abcd[1] && g_in[2] == st0.abcd[2] && g_in[3] == st0.abcd[3], "md5: the 64 steps start from the old registers");
     __CPROVER_assert(st.abcd[0] == st0.abcd[0] + g_r[0] && st.abcd[1] == st0.abcd[1] + g_r[1] && st.abcd[2] == st0.abcd[2] + g_r[2] && st.abcd[3] == st0.abcd[3] + g_r[3], "md5: registers += result of the 64 RFC steps");
     __CPROVER_assert(st.count[0] == st0.count[0] && st.count[1] == st0.count[1], "md5: length counters untouched by the compression function");
     size_t j; __CPROVER_assume(j < 64); __CPROVER_assert(st.buf[j] == st0.buf[j], "md5: block buffer untouched by the compression function");
-    VERIF_REACH;'''),
+    VERIF_REACH;''', witness=dict(bufs=['block']), replay='c16:md5', replay_link=['-lcrypto', '-Wno-deprecated-declarations']),
     dict(name='md5_init', props=P, enforce='md5_init', checks=HASH_CHECKS, harness='md5_state_t st; md5_init(&st); VERIF_REACH;'),
     dict(name='left_rotate', props=P, enforce='left_rotate', checks=HASH_CHECKS, harness='unsigned x; size_t n; left_rotate(x, n); VERIF_REACH;'),
-    dict(name='sha1_process_block0', props=P, kind='plain', unwind=81, checks=HASH_CHECKS, timeout=300, cost=20, per_property=r'assertion', pp_workers=14,
-         complete_note='three loops with constant bounds 16/64/80 fully unwound (unwinding assertions on); 160 assert-then-assume cut points',
-         harness=r'''
-    struct sha1 s, s0; s0 = s;
-    sha1_process_block0(&s);
-    __CPROVER_assert(g_h0[0] == s0.h_[0] && g_h0[1] == s0.h_[1] && g_h0[2] == s0.h_[2] && g_h0[3] == s0.h_[3] && g_h0[4] == s0.h_[4], "sha1: the 80 rounds start from the old hash value");
-    __CPROVER_assert(s.h_[0] == s0.h_[0] + g_s[0] && s.h_[1] == s0.h_[1] + g_s[1] && s.h_[2] == s0.h_[2] + g_s[2] && s.h_[3] == s0.h_[3] + g_s[3] && s.h_[4] == s0.h_[4] + g_s[4], "sha1: H += working variables after 80 FIPS rounds");
-    __CPROVER_assert(s.block_byte_index_ == s0.block_byte_index_ && s.byte_count_ == s0.byte_count_, "sha1: counters untouched by the compression function");
-    size_t j; __CPROVER_assume(j < 64); __CPROVER_assert(s.block_[j] == s0.block_[j], "sha1: block untouched by the compression function");
-    VERIF_REACH;'''),
+    dict(name='sha1_process_block0', props=P, enforce='sha1_process_block0', replace=['left_rotate'], checks=HASH_CHECKS, timeout=300, cost=20,
+         harness='struct sha1 s; size_t t; __CPROVER_assume(t < 80); g_t = t; WIT_BUF(0, s.block_, 24); sha1_process_block0(&s); VERIF_REACH;',
+         witness=dict(bufs=['block']), replay='c16:sha1', replay_link=['-lcrypto', '-Wno-deprecated-declarations']),
     dict(name='sha1_reset', props=P, enforce='sha1_reset', checks=HASH_CHECKS, harness='struct sha1 s; sha1_reset(&s); VERIF_REACH;'),
 ]
 
